@@ -1,6 +1,6 @@
 CONSTANTS
   Roots = {"plain", "under_src"}
-  Forms = {"use_single", "use_group", "use_nested_self", "use_group_then_fn", "use_group_then_self", "use_group_then_nested_fn", "use_glob", "qualified", "crate_path", "super_path", "self_path", "use_crate", "generic_qualified", "use_alias"}
+  Forms = {"use_via_facade", "use_single", "use_group", "use_nested_self", "use_group_then_fn", "use_group_then_self", "use_group_then_nested_fn", "use_glob", "qualified", "crate_path", "super_path", "self_path", "use_crate", "generic_qualified", "use_alias"}
   Dirs = {"alpha", "beta-two"}
   Depths = {"lib", "deep"}
 INIT Init
